@@ -321,7 +321,7 @@ class C03(Prop):
             if r < .3:
                 ops.append(dict(rng.choice(ELEMENTWISE)))
             elif r < .5:
-                if rng.random() < .06 and len(data) <= 4:
+                if rng.random() < .06 and len(data) <= 3 and not any(o.get('fraction', 0) > 100 for o in ops):
                     ops.append({'op': 'sample', 'repl': True, 'fraction': rng.choice([510.0, 600.0]), 'seed': rng.randint(0, 30)})
                 else:
                     ops.append({'op': 'sample', 'repl': rng.random() < .25, 'fraction': rng.choice([.3, .5, .8, 1.0]), 'seed': rng.randint(0, 30)})
